@@ -79,6 +79,32 @@ PLACES = {
     "script": ("<script>", "</script>", "prescan"),
     "style": ("<style>", "</style>", "prescan"),
     "attr": ('<link title="', '">', "nobody"),
+    # one placement per insertion mode / tokenizer state in which the HTML standard says what happens to a <meta> start tag
+    # (visibility below is what the standard prescribes, not what the code does; scripting is off in this engine)
+    "noscript_head": ("<head><noscript>", "</noscript>", "both"),       # in head noscript: "process using the rules for in head"
+    "after_head": ("</head>", "", "both"),                              # after head: pushed back onto head
+    "table": ("<table>", "</table>", "both"),                           # in table: foster parenting, in-body rules
+    "table_cell": ("<table><tr><td>", "</td></tr></table>", "both"),    # in cell -> in body
+    "caption": ("<table><caption>", "</caption></table>", "both"),
+    "table_row": ("<table><tr>", "</tr></table>", "both"),              # in row -> in table -> in body
+    "after_body": ("</body>", "", "both"),                              # after body: reprocessed in body
+    "after_html": ("</html>", "", "both"),
+    "svg": ("<svg>", "</svg>", "both"),                                 # <meta> breaks out of foreign content
+    "math_mtext": ("<math><mtext>", "</mtext></math>", "both"),         # MathML text integration point
+    "svg_desc": ("<svg><desc>", "</desc></svg>", "both"),               # HTML integration point
+    "nested": ("<div><p><b><ul><li>", "</li></ul></b></p></div>", "both"),
+    "form": ("<form>", "</form>", "both"),
+    "button": ("<button>", "</button>", "both"),
+    "template": ("<template>", "</template>", "both"),
+    "select": ("<select>", "</select>", "prescan"),                     # in select: any other start tag is ignored
+    "textarea": ("<textarea>", "</textarea>", "prescan"),               # RCDATA / RAWTEXT content
+    "xmp": ("<xmp>", "</xmp>", "prescan"),
+    "iframe": ("<iframe>", "</iframe>", "prescan"),
+    "noframes": ("<noframes>", "</noframes>", "prescan"),
+    "pi": ("<?php ", " ?>", "nobody"),                                  # bogus comment up to the first '>'
+    "bang": ("<!x ", "", "nobody"),
+    "endtag_attrs": ("</p ", "", "nobody"),                             # attributes of an end tag
+    "attr_sq": ("<link title='", "'>", "nobody"),
 }
 FILLERS = [" ", "\n", "<!DOCTYPE html>", "<html>", "<head>", "<link rel=x>", "<!--XXXX-->", "yyy", "\r\n"]
 # markup that depends on the decoder: ISO-2022 escape sequences are characters
@@ -363,8 +389,14 @@ def gen_doc(rng):
             _pad_to(rng, parts, case, rng.randint(10200, 10400))
         form = rng.choice(list(FORMS)) if rng.random() < 0.8 else rng.choice(["charset", "pragma"])
         place = rng.choice(["plain", "plain", "plain", "body", "comment", "title", "script", "style", "attr"])
+        if rng.random() < 0.35:
+            place = rng.choice(sorted(PLACES))
         if place == "attr" and '"' in FORMS[form][0]:
             form = rng.choice(["charset", "charset_sq_uc", "charset_pad", "charset_extra"])
+        if place in ("attr_sq", "pi", "bang", "endtag_attrs"):
+            # forms without the characters that would end the enclosing construct early
+            form = rng.choice(["charset", "charset_pad", "charset_extra"]) if place != "attr_sq" else \
+                rng.choice(["charset", "charset_q", "charset_pad", "charset_extra", "pragma"])
         label = _label(rng)
         if esc_doc and rng.random() < 0.7:
             label = rng.choice(["iso-2022-jp", "csiso2022jp", "ISO-2022-JP"])
